@@ -38,8 +38,10 @@ FLAVOURS = {
              ['-O1', '-g', '-fno-omit-frame-pointer', '-fsanitize=address,undefined', '-fno-sanitize-recover=all', '-DSIM_FLAVOUR_ASAN'],
              ['-fsanitize=address,undefined'], False),
     'plainO2': (['-O2', '-g', '-gdwarf-4', '-DNDEBUG', '-fPIC'], ['-O2', '-g', '-gdwarf-4', '-DSIM_FLAVOUR_PLAIN'], [], True),    # dwarf-4: valgrind 3.19 cannot read clang's DWARF 5
-    'plainO0': (['-O0', '-g', '-gdwarf-4', '-DNDEBUG', '-fPIC'], ['-O2', '-g', '-gdwarf-4', '-DSIM_FLAVOUR_PLAIN'], [], True),
-    'tsan': (['-O1', '-g', '-fno-omit-frame-pointer', '-fsanitize=thread', '-DNDEBUG'], ['-O2', '-g', '-DSIM_FLAVOUR_TSAN'], ['-fsanitize=thread'], False),
+    # the project's Debug flavour (-DDEBUG=true: CBOR_ASSERT and the code under #ifdef DEBUG are compiled in) at -O0 ...
+    'plainO0': (['-O0', '-g', '-gdwarf-4', '-DDEBUG=true', '-fPIC'], ['-O2', '-g', '-gdwarf-4', '-DSIM_FLAVOUR_PLAIN'], [], True),
+    # ... and under ThreadSanitizer; plainO2 is the release flavour (-DNDEBUG)
+    'tsan': (['-O1', '-g', '-fno-omit-frame-pointer', '-fsanitize=thread', '-DDEBUG=true'], ['-O2', '-g', '-DSIM_FLAVOUR_TSAN'], ['-fsanitize=thread'], False),
 }
 
 def repo_sources():
@@ -130,6 +132,9 @@ def build_locked(flavour, L=None):
     t0 = time.time()
     libflags, simflags, ldflags, shared = FLAVOURS[flavour]
     cfg, sources, defines, includes, std = configure(L)
+    # the configure step is a Release one (its compile commands carry -DNDEBUG); the flavour decides: the Debug flavours must
+    # have assert() live, or CBOR_ASSERT and everything inside its argument is compiled out
+    defines = [d for d in defines if d != '-DNDEBUG']
     cs, hs = repo_sources()
     cfg_headers = [os.path.join(cfg, 'cbor', 'configuration.h'), os.path.join(cfg, 'src', 'cbor', 'cbor_export.h')]
     for p in cfg_headers:
@@ -249,7 +254,7 @@ PROPS = {
                 rule='one evaluation = one W1 history or W3 stream run under a PRNG-chosen allocator configuration (direct / tagging / arena; realloc moving or not; faults on or off) with libc allocator entry points of the library objects trapped at link time; non-trivial = the library made >= 1 request through the installed allocator and released >= 1 block; distinct = distinct plan digests'),
     'C14': dict(level='exploration', phases=[('asan', None, 100000, 1000000)],
                 rule='one evaluation = one CBOR sequence (items + tail) delivered in fragments to a cbor_load sequence receiver that retries on NOTENOUGHDATA and scribbles consumed bytes; non-trivial = >= 2 items were received and at least one item was decoded with a non-empty suffix behind it; distinct = distinct plan digests'),
-    'C17': dict(level='exploration', phases=[('plainO2', None, 5000, 50000), ('tsan', None, 4000, 40000)],
+    'C17': dict(level='exploration', phases=[('plainO2', None, 4500, 50000), ('plainO0', None, 1500, 15000), ('tsan', None, 4000, 40000)],
                 rule='one evaluation = one multi-task plan (2-16 real threads, each with its own workload) first run solo per task, then under the seeded scheduler with a choice at every allocator call, streaming callback and describe write; non-trivial = at least one pre-emption happened inside a library call; distinct = distinct schedule hashes'),
     'C18': dict(level='exploration', phases=[('plainO2', None, 15000, 150000), ('plainO0', None, 15000, 150000), ('tsan', None, 1500, 15000)],
                 rule='one evaluation = one tree built inside the arena, write-protected, then inspected with every read-only operation on every node (or read concurrently by 2-8 threads under TSan); non-trivial = the tree has >= 2 nodes and >= 10 read-only calls ran under protection; distinct = distinct plan digests'),
@@ -551,6 +556,16 @@ def run_property(prop, tier, seed):
         phases.append(('plainO2', None, 0, 640, 'valgrind'))   # uninitialised reads, which ASan cannot see
     if prop == 'C19' and tier == 'thorough':
         phases = [('plainO2', L, 0, 6000) for L in THOROUGH_L]
+    if prop == 'C19':
+        # "for every build-time value L": besides the fixed small, medium and default limits, every seed picks limits of its own
+        # (two in the quick tier, four in the thorough tier), so that no particular arithmetic property of the fixed ones -
+        # powers of two, multiples of a block size - is shared by everything ever built
+        h = int(hashlib.sha256(('C19-L-%d' % seed).encode()).hexdigest(), 16)
+        extra = []
+        for i in range(4 if tier == 'thorough' else 2):
+            span = [(5, 200), (17, 1500), (200, 5000), (5, 64)][i]
+            extra.append(span[0] + (h >> (32 * i)) % (span[1] - span[0] + 1))
+        for L in extra: phases.append(('plainO2', L, 500, 3000))
     scale = float(os.environ.get('VERIF_SCALE', '1'))
     total = dict(runs=0, nontrivial=0, foreign=0, sim_time=0, stats={}, samples=[], hashes=set(), chunks=0, digest=0)
     cands = []           # violation candidates: dict(cls, detail, plan, exe)
